@@ -318,6 +318,11 @@ def build_options(orm, zoo, rootent, rootname, tree, assign, style, flavour, rng
             kw = {}
             if st == "joined" and not ri.nullable_fk and not ri.uselist and rng_choices[2] % 2:
                 kw["innerjoin"] = True
+            if st == "selectin" and len(rng_choices) > 3:
+                # small IN chunks: the loader has to merge the rows of several statements
+                cs = (None, 1, 2, 3, 4)[(rng_choices[3] + len(path)) % 5]
+                if cs is not None:
+                    kw["chunksize"] = cs
             o = fn[st](attr, **kw)
             tcls = zoo.cls[ri.target]
             children = rec(tcls, ri.target, subsub, path)
@@ -610,7 +615,7 @@ def one_query(ctx, sa, orm, R, zoo, engine, spy, q, tree, rng, warnings):
     ordered = q["order"] is not None
     desc_q = {"q": q, "tree": tree, "knobs": zoo.knobs}
     base_assign = {p: "lazy" for p in paths}
-    rc0 = (rng.randrange(1000), rng.randrange(1000), rng.randrange(1000))
+    rc0 = (rng.randrange(1000), rng.randrange(1000), rng.randrange(1000), rng.randrange(1000))
     with warnings.catch_warnings():
         warnings.simplefilter("ignore")
         base = run_variant(sa, orm, R, zoo, engine, spy, q, tree, base_assign, "options", "none", rc0)
@@ -654,7 +659,9 @@ def one_query(ctx, sa, orm, R, zoo, engine, spy, q, tree, rng, warnings):
         assign = dict(zip(paths, combo))
         flavour = flavours[vi % len(flavours)]
         style = "chain" if (vi // 3) % 2 else "options"
-        rc = (rng.randrange(1000), rng.randrange(1000), rng.randrange(1000))
+        rc = (rng.randrange(1000), rng.randrange(1000), rng.randrange(1000), rng.randrange(1000))
+        if any(st == "selectin" for st in combo):
+            ctx.count("selectin_variants")
         with warnings.catch_warnings():
             warnings.simplefilter("ignore")
             try:
@@ -709,7 +716,7 @@ def one_query(ctx, sa, orm, R, zoo, engine, spy, q, tree, rng, warnings):
             d = R.diff_snap(base["snap"], var["snap"]) or R.diff_snap(base["other"], var["other"])
             mech = classify(zoo, root, tree, assign, q, d, flavour, rc)
             ctx.violation(
-                f"graph-differ:{mech}",
+                mech if mech.startswith("subqueryload-m2o-deferred-fk") else f"graph-differ:{mech}",
                 f"loaded graph differs from all-lazy baseline: {d[:3]} assign={witness['assign']} flavour={flavour}",
                 dict(witness, diff=d),
             )
